@@ -43,26 +43,32 @@ def hexNibble (c : UInt8) : Option Nat :=
   else if 97 ≤ c && c ≤ 102 then some (c.toNat - 87)
   else none
 
-/-- skip a comment body up to (not including) the end-of-line marker -/
-def skipComment : Bytes → Bytes
-  | [] => []
-  | c :: t => if c == 10 || c == 13 then c :: t else skipComment t
-
-theorem skipComment_length (s : Bytes) : (skipComment s).length ≤ s.length := by
-  induction s with
-  | nil => simp [skipComment]
-  | cons c t ih => simp only [skipComment]; split <;> simp <;> omega
-
-/-- white space and comments between tokens (7.2.2, 7.2.3) -/
-def skipWs : Nat → Bytes → Bytes
-  | 0, s => s
+/-- white space and comments between tokens (7.2.2, 7.2.3): `inComment` = inside a comment, which
+    runs to the next end-of-line byte (itself white space) -/
+def skipWsC : Bool → Bytes → Bytes
   | _, [] => []
-  | f + 1, c :: t =>
-    if isWhite c then skipWs f t
-    else if c == 37 then skipWs f (skipComment t)
+  | false, c :: t =>
+    if isWhite c then skipWsC false t
+    else if c == 37 then skipWsC true t
     else c :: t
+  | true, c :: t => if c == 10 || c == 13 then skipWsC false t else skipWsC true t
 
-def skipWsAll (s : Bytes) : Bytes := skipWs (s.length + 1) s
+def skipWsAll (s : Bytes) : Bytes := skipWsC false s
+
+theorem skipWsC_length : ∀ (b : Bool) (s : Bytes), (skipWsC b s).length ≤ s.length
+  | _, [] => by simp [skipWsC]
+  | false, c :: t => by
+    simp only [skipWsC]
+    split
+    · have := skipWsC_length false t; simp; omega
+    · split
+      · have := skipWsC_length true t; simp; omega
+      · simp
+  | true, c :: t => by
+    simp only [skipWsC]
+    split
+    · have := skipWsC_length false t; simp; omega
+    · have := skipWsC_length true t; simp; omega
 
 /-- the maximal run of regular characters -/
 def takeRegular : Bytes → Bytes × Bytes
@@ -72,11 +78,15 @@ def takeRegular : Bytes → Bytes × Bytes
 def decimalNat (ds : Bytes) : Nat := ds.foldl (fun acc c => acc * 10 + (c.toNat - 48)) 0
 
 /-- 7.3.3 numeric objects: integer `[+-]?d+`, real `[+-]?d*.d*` with at least one digit. -/
+def splitSign (run : Bytes) : Bool × Bytes :=
+  match run with
+  | 45 :: r => (true, r)
+  | 43 :: r => (false, r)
+  | r => (false, r)
+
 def parseNumber (run : Bytes) : Option Obj :=
-  let (neg, body) := match run with
-    | 45 :: r => (true, r)
-    | 43 :: r => (false, r)
-    | r => (false, r)
+  let neg := (splitSign run).1
+  let body := (splitSign run).2
   let ip := body.takeWhile isDigit
   match body.dropWhile isDigit with
   | [] => if ip.isEmpty then none
@@ -186,16 +196,25 @@ def kwFalse : Bytes := [102, 97, 108, 115, 101]
 /-- `n g R` (7.3.10) after the object number `n` has been read as an unsigned integer. -/
 def parseRefTail (rest : Bytes) : Option Bytes :=
   -- at least one white-space/comment separator, generation number, separator, `R` as a whole token
-  let r1 := skipWsAll rest
-  if r1.length == rest.length then none else
-  let (g, r2) := takeRegular r1
-  match unsignedInt g with
+  if (skipWsAll rest).length == rest.length then none else
+  match unsignedInt (takeRegular (skipWsAll rest)).1 with
   | none => none
   | some _ =>
-    let r3 := skipWsAll r2
-    if r3.length == r2.length then none else
-    let (k, r4) := takeRegular r3
-    if k == [82] then some r4 else none
+    if (skipWsAll (takeRegular (skipWsAll rest)).2).length == (takeRegular (skipWsAll rest)).2.length then none else
+    if (takeRegular (skipWsAll (takeRegular (skipWsAll rest)).2)).1 == [82] then
+      some (takeRegular (skipWsAll (takeRegular (skipWsAll rest)).2)).2
+    else none
+
+/-- an object written as a run of regular characters: `null`, `true`, `false`, a number, or the
+    object number of an indirect reference `n g R` -/
+def regObj (run rest : Bytes) : Option (Obj × Bytes) :=
+  if run == kwNull then some (.null, rest)
+  else if run == kwTrue then some (.bool true, rest)
+  else if run == kwFalse then some (.bool false, rest)
+  else
+    match unsignedInt run, parseRefTail rest with
+    | some n, some rest' => some (.ref n, rest')
+    | _, _ => (fun o => (o, rest)) <$> parseNumber run
 
 mutual
 /-- one object; fuel bounds the total number of nested/iterated calls -/
@@ -215,14 +234,8 @@ def parseObj : Nat → Bytes → Option (Obj × Bytes)
     | 60 :: t => (fun r => (Obj.str r.1, r.2)) <$> parseHexBody none t
     | c :: t =>
       if !isRegular c then none else
-      let (run, rest) := takeRegular (c :: t)
-      if run == kwNull then some (.null, rest)
-      else if run == kwTrue then some (.bool true, rest)
-      else if run == kwFalse then some (.bool false, rest)
-      else
-        match unsignedInt run, parseRefTail rest with
-        | some n, some rest' => some (.ref n, rest')
-        | _, _ => (fun o => (o, rest)) <$> parseNumber run
+      let r := takeRegular (c :: t)
+      regObj r.1 r.2
 
 /-- array items up to `]` -/
 def parseItems : Nat → Bytes → Option (List Obj × Bytes)
